@@ -139,6 +139,12 @@ else:
         if isinstance(annotation, str):
             return annotation
 
+        # A real class is not an alias: looking its *name* up in other modules
+        # would pick up any unrelated module-level alias that happens to share
+        # it (an application's own `Tool = Dict[str, Any]`, say)
+        if inspect.isclass(annotation):
+            return annotation
+
         # For type aliases, try multiple resolution strategies
         if hasattr(annotation, "__name__"):
             alias_name = annotation.__name__
